@@ -277,5 +277,92 @@ impl Session {
             assert(requests.m@.contains_key(message_id) && !(requests.m@[message_id] is Ready));   // OBL:C05.recv.reads_only_while_own_reply_is_not_parked
 //@end
 
+// ---------- Request::write_xml: the message-id that actually goes on the wire (C05) ----------
+// Session::rpc above reasons about `request.message_id`; ClientMsg::send serialises the request through this function, so
+// "every request carries a message-id not used before" holds on the wire only if the attribute written here is the decimal
+// rendering of exactly that id (injective in the id), on the <rpc> element that encloses the operation.
+pub mod wire {
+use vstd::prelude::*;
+use super::MessageId;
+pub struct WriteError;
+pub struct Unit;
+// attribute value: the decimal rendering of an integer (std Display for the unsigned integer types), tracked by its value
+pub struct NumStr { pub v: Ghost<int> }
+pub trait ToDec { spec fn dec_value(&self) -> int; fn to_dec_(&self) -> (r: NumStr) ensures r.v@ == self.dec_value(); }
+impl ToDec for usize { open spec fn dec_value(&self) -> int { *self as int } #[verifier::external_body] fn to_dec_(&self) -> (r: NumStr) { unimplemented!() } }
+impl ToDec for u64 { open spec fn dec_value(&self) -> int { *self as int } #[verifier::external_body] fn to_dec_(&self) -> (r: NumStr) { unimplemented!() } }
+impl ToDec for u32 { open spec fn dec_value(&self) -> int { *self as int } #[verifier::external_body] fn to_dec_(&self) -> (r: NumStr) { unimplemented!() } }
+impl ToDec for u16 { open spec fn dec_value(&self) -> int { *self as int } #[verifier::external_body] fn to_dec_(&self) -> (r: NumStr) { unimplemented!() } }
+impl ToDec for u8 { open spec fn dec_value(&self) -> int { *self as int } #[verifier::external_body] fn to_dec_(&self) -> (r: NumStr) { unimplemented!() } }
+pub enum WNode {
+    Elem { name: Seq<char>, attrs: Seq<(Seq<char>, int)>, children: Seq<WNode> },
+    Operation(u64),              // whatever O::write_xml writes for operation #id (units a5 / a6)
+}
+// ASSUMED contract of quick-xml's Writer / ElementWriter (as in unit a6)
+pub struct Writer { pub nodes: Ghost<Seq<WNode>> }
+pub struct ElementWriter<'a> { pub w: &'a mut Writer, pub name: Ghost<Seq<char>>, pub attrs: Ghost<Seq<(Seq<char>, int)>> }
+impl Writer {
+    #[verifier::external_body]
+    pub fn create_element<'a>(&'a mut self, name: &str) -> (r: ElementWriter<'a>)
+        ensures r.name@ == name@, r.attrs@ == Seq::<(Seq<char>, int)>::empty(),
+                r.w.nodes@ == old(self).nodes@, final(self).nodes@ == final(r.w).nodes@
+    { unimplemented!() }
+}
+impl<'a> ElementWriter<'a> {
+    #[verifier::external_body]
+    pub fn with_attribute(self, kv: (&str, NumStr)) -> (r: ElementWriter<'a>)
+        ensures r.name@ == self.name@, r.attrs@ == self.attrs@.push((kv.0@, kv.1.v@)),
+                r.w.nodes@ == old(self.w).nodes@, final(self.w).nodes@ == final(r.w).nodes@
+    { unimplemented!() }
+    #[verifier::external_body]
+    pub fn write_inner_content<F: FnOnce(&mut Writer) -> Result<(), WriteError>>(self, f: F) -> (r: Result<Unit, WriteError>)
+        requires forall|w: &mut Writer| (*w).nodes@ == Seq::<WNode>::empty() ==> #[trigger] f.requires((w,)),
+        ensures r is Ok ==> exists|w: &mut Writer| (*w).nodes@ == Seq::<WNode>::empty() && #[trigger] f.ensures((w,), Ok(()))
+            && final(self.w).nodes@ == old(self.w).nodes@.push(WNode::Elem { name: self.name@, attrs: self.attrs@, children: (*final(w)).nodes@ })
+    { unimplemented!() }
+}
+pub struct Operation { pub id: u64 }
+impl Operation {
+    // O::write_xml: appends the operation's element(s) and nothing else
+    #[verifier::external_body]
+    pub fn write_xml(&self, writer: &mut Writer) -> (r: Result<(), WriteError>)
+        ensures r is Ok ==> final(writer).nodes@ == old(writer).nodes@.push(WNode::Operation(self.id))
+    { unimplemented!() }
+}
+// RFC 6241 section 4.1: <rpc message-id="N"> operation </rpc>, N the decimal text of the request's id
+pub open spec fn rpc_node(id: MessageId, op: u64) -> WNode {
+    WNode::Elem {
+        name: "rpc"@,
+        attrs: Seq::<(Seq<char>, int)>::empty().push(("message-id"@, id.0 as int)),
+        children: Seq::<WNode>::empty().push(WNode::Operation(op)),
+    }
+}
+pub struct Request { pub message_id: MessageId, pub operation: Operation }
+impl Request {
+//@extract id=request_write_xml file=netconf/src/message/rpc/mod.rs impl=/impl<O: Operation> WriteXml for Request<O>/ fn=write_xml rules=R1,R7 r7map=result
+//@+ sub=/.to_string().as_ref()=>.to_dec_()/
+//@sig pub fn write_xml(&self, writer: &mut Writer) -> (res: Result<(), WriteError>)
+//@contract
+        ensures res is Ok ==> final(writer).nodes@ == old(writer).nodes@.push(rpc_node(self.message_id, self.operation.id)),   // OBL:C05.request.wire_message_id_is_the_request_id
+//@closure 1
+                -> (r: Result<(), WriteError>)
+                requires writer.nodes@ == Seq::<WNode>::empty(),
+                ensures r is Ok ==> final(writer).nodes@ == Seq::<WNode>::empty().push(WNode::Operation(self.operation.id))   // OBL:C05.request.rpc_encloses_exactly_the_operation
+//@end
+}
+// two requests with different ids are different on the wire (the attribute value determines the id)
+pub proof fn lemma_wire_ids_injective(a: MessageId, b: MessageId, op: u64)
+    ensures rpc_node(a, op) == rpc_node(b, op) ==> a == b                                                                      // OBL:C05.request.wire_ids_injective
+{
+    if rpc_node(a, op) == rpc_node(b, op) {
+        let sa = Seq::<(Seq<char>, int)>::empty().push(("message-id"@, a.0 as int));
+        let sb = Seq::<(Seq<char>, int)>::empty().push(("message-id"@, b.0 as int));
+        assert(rpc_node(a, op)->attrs == sa);
+        assert(rpc_node(b, op)->attrs == sb);
+        assert(sa[0] == sb[0]);
+    }
+}
+} // mod wire
+
 } // verus!
 fn main() {}
